@@ -4,6 +4,11 @@ import PngVerif.Proofs.ReaderEnd
 import PngVerif.Proofs.ReaderSplit
 import PngVerif.Proofs.ReaderResume
 import PngVerif.Proofs.ReaderToy
+import PngVerif.Proofs.ReaderSim
+import PngVerif.Proofs.ReaderLag
+import PngVerif.Proofs.ReaderRetry
+import PngVerif.Proofs.ReaderRun
+import PngVerif.Proofs.ReaderStart
 /-!
 # Proofs about the `Reader` model (`Model/Reader.lean`) — overview
 
@@ -20,4 +25,14 @@ import PngVerif.Proofs.ReaderToy
   `gloop` and its resumability, the five loops and the calls `read_row`, `next_row`, `finish`,
   `read_header_info` as instances (C05).
 * `Proofs/ReaderToy.lean` — an identity `TCfg` and tiny streams for the non-vacuity examples.
+* `Proofs/ReaderSim.lean` — `Sim` (readers equal up to the layout of the unfiltering buffer), `BehindN`
+  (a reader ahead by some `decode_image_data` calls); the generic loop from such readers and on a
+  shorter against a longer visible prefix.
+* `Proofs/ReaderLag.lean` — every function and every call of the model from a reader that sees less
+  against a reader that sees more and may be ahead (`step_lag`); `step_sim`, `run_sim`.
+* `Proofs/ReaderRetry.lean` — the row loops, `finish_decoding`, `next_frame` retried after they ran out of
+  input; `nextFrameOp_resumable`.
+* `Proofs/ReaderRun.lean` — every call is resumable up to `Sim` and monotone in the visible prefix; the
+  retrying caller `resumeRun` and `resumeRun_spec` (C05, whole runs).
+* `Proofs/ReaderStart.lean` — `read_info` on a longer visible prefix; whole runs from the `Decoder`.
 -/
